@@ -1273,4 +1273,122 @@ theorem mapAfter_keysNodup {map0 : IMap} (hn : KeysNodup map0) (pre : List (Fram
 
 end Bitfinex
 
+/-! ### Added after the review of the sub-check theorems -/
+
+section Added
+
+theorem IMap.get_foldl_insert (es : List (Key × Nat)) (m0 : IMap) (k : Key) :
+    (es.foldl (fun m e => m.insert e.1 e.2) m0).get k
+      = match lastEntry es k with
+        | some v => some v
+        | none => m0.get k := by
+  induction es generalizing m0 with
+  | nil => simp [lastEntry]
+  | cons e es ih =>
+    rw [List.foldl_cons, ih]
+    have hl : lastEntry (e :: es) k
+        = match lastEntry es k with
+          | some v => some v
+          | none => if e.1 = k then some e.2 else none := by
+      unfold lastEntry
+      rw [List.reverse_cons, List.find?_append]
+      cases List.find? (fun e => e.1 == k) es.reverse with
+      | some x => simp
+      | none =>
+        by_cases h : e.1 = k
+        · simp [h]
+        · simp [h]
+    rw [hl, IMap.get_insert]
+    cases lastEntry es k with
+    | some v => rfl
+    | none =>
+      by_cases h : e.1 = k
+      · simp [h]
+      · have : ¬ k = e.1 := fun h' => h h'.symm
+        simp [h, this]
+
+/-- `Map::from_iter`: a lookup finds the instrument of the last entry with that key -/
+theorem IMap.get_ofList (es : List (Key × Nat)) (k : Key) : (IMap.ofList es).get k = lastEntry es k := by
+  unfold IMap.ofList
+  rw [IMap.get_foldl_insert]
+  cases lastEntry es k <;> simp [IMap.get]
+
+/-- Without any assumption on the channel ids: every entry of the concrete map is an entry of the re-keyed
+original map (the converse needs `distinctIds`: `mapAfter_mem_iff_rekey`). -/
+theorem mapAfter_subset_rekey {map0 : IMap} (hn : KeysNodup map0)
+    (pre : List (Frame BfxEvent)) (x : Key × Nat) :
+    x ∈ mapAfter map0 pre → x ∈ rekey map0 pre := by
+  induction pre using snoc_induction generalizing x with
+  | h0 =>
+    rw [mem_rekey]
+    simp only [mapAfter, List.foldl_nil, rk, rekeyEntry, chanIdOf_nil]
+    intro h; exact ⟨x, h, rfl⟩
+  | hs pre f ih =>
+    rw [mapAfter_snoc]
+    unfold rekeyStep
+    cases hf : confOf f with
+    | none =>
+      simp only []
+      intro hx
+      have := ih x hx
+      rw [mem_rekey] at this ⊢
+      have hrk : ∀ e, rk (pre ++ [f]) e = rk pre e := by
+        intro e; simp [rk, rekeyEntry, chanIdOf_snoc, hf]
+      obtain ⟨e, he, hex⟩ := this
+      exact ⟨e, he, by rw [hrk]; exact hex⟩
+    | some ck =>
+      obtain ⟨k, id⟩ := ck
+      obtain ⟨c, m, hk, _⟩ := confOf_sub hf
+      simp only []
+      have hget := mapAfter_get_sub map0 pre c m
+      rw [← hk] at hget
+      cases hg : (mapAfter map0 pre).get k with
+      | none =>
+        simp only []
+        intro hx
+        have := ih x hx
+        rw [mem_rekey] at this ⊢
+        rw [hg] at hget
+        have hrk : ∀ e ∈ map0, rk (pre ++ [f]) e = rk pre e := by
+          intro e he
+          simp only [rk, rekeyEntry, chanIdOf_snoc, hf]
+          cases hc : chanIdOf pre e.1 with
+          | some y => simp
+          | none =>
+            by_cases hke : k = e.1
+            · exfalso
+              rw [hke, hc] at hget
+              simp at hget
+              have := (IMap.get_isSome_iff map0 e.1).mpr ⟨e.2, he⟩
+              rw [← hget] at this
+              simp at this
+            · simp [hke]
+        obtain ⟨e, he, hex⟩ := this
+        exact ⟨e, he, by rw [hrk e he]; exact hex⟩
+      | some ins =>
+        simp only []
+        rw [hg] at hget
+        have hnone : chanIdOf pre k = none := by
+          cases h : chanIdOf pre k <;> simp [h] at hget ⊢
+        have hins : map0.get k = some ins := by simp [hnone] at hget; exact hget.symm
+        have hmem : (k, ins) ∈ map0 := (IMap.get_eq_some_iff hn k ins).mp hins
+        have hrk_k : rk (pre ++ [f]) (k, ins) = (.chan id, ins) := by
+          simp [rk, rekeyEntry, chanIdOf_snoc, hf, hnone]
+        have hrk_ne : ∀ e, e.1 ≠ k → rk (pre ++ [f]) e = rk pre e := by
+          intro e hek
+          have : ¬ k = e.1 := fun h => hek h.symm
+          simp [rk, rekeyEntry, chanIdOf_snoc, hf, this]
+        rw [IMap.mem_insert, IMap.mem_erase, mem_rekey]
+        rintro (hx | ⟨⟨hxm, hxk⟩, _⟩)
+        · exact ⟨(k, ins), hmem, by rw [hrk_k, hx]⟩
+        · obtain ⟨e, he, hex⟩ := (mem_rekey map0 pre x).mp (ih x hxm)
+          have hek : e.1 ≠ k := by
+            intro hek
+            have : rk pre e = e := by simp [rk, rekeyEntry, hek, hnone]
+            rw [this] at hex
+            apply hxk; rw [← hex]; exact hek
+          exact ⟨e, he, by rw [hrk_ne e hek]; exact hex⟩
+
+end Added
+
 end BarterModel.SubValidator
